@@ -264,6 +264,21 @@ pub fn gen_c06(ctx: &Ctx, rng: &mut Rng, out: &mut Vec<String>) {
         out.push(format!("st.calc\t{kinds}\t{}\t{}", nats(&shape), bits(&data)));
         if i % 3 == 0 || t { out.push(format!("st.cmd\t{kinds}\t12\t{}\t{}", nats(&shape), bits(&data))); }
     }
+    // (a3') … and beyond 2^16 entries
+    for (i, shape) in [vec![65537usize], vec![100001], vec![257, 257]].into_iter().enumerate() {
+        if !t && i == 1 { continue; }
+        let n: usize = shape.iter().product();
+        let data = counts(rng, n, 3);
+        let kinds = if shape.len() == 1 { "s,sum" } else { "s,sum,f2" };
+        out.push(format!("st.calc\t{kinds}\t{}\t{}", nats(&shape), bits(&data)));
+        out.push(format!("st.cmd\tsum,s\t9\t{}\t{}", nats(&shape), bits(&data)));
+    }
+    // (a3'') printing precisions beyond the decimal exponent range of binary64 (309 and more decimals), alone and inside a list
+    {
+        let shape = vec![7usize]; let data = vec![1.0f64, 1.0, 0.0, 2.0, 0.0, 0.0, 1.0];
+        for p in [17usize, 18, 100, 308, 309, 320, 400, 1000] { if t || p % 3 != 0 { out.push(format!("st.cmd\ts,sum,pi\t{p}\t{}\t{}", nats(&shape), bits(&data))); } }
+        for precs in ["6,400,6", "320,0,2", "0,0,309"] { out.push(format!("st.cmd2\ts,sum,pi\t{precs}\t1\t-\t{}\t{}", nats(&shape), bits(&data))); }
+    }
     // (a4) theta at 2 x the size of well-known panels (n = 5008: 1000 Genomes), sparse spectra
     for n in [5008usize, 4096, 1024, 2504] {
         // (the exact-rational model evaluates the harmonic number once per element: n = 5008 costs minutes and is left to the thorough
@@ -356,6 +371,8 @@ pub fn gen_c14(ctx: &Ctx, rng: &mut Rng, out: &mut Vec<String>) {
             if !["sum", "d-fu-li"].contains(k) { out.push(format!("st.rel\tfold\t{k}\t{sh}\t{bs}\t-")); if i % 10 == 0 { out.push(format!("st.rel\tfoldcli\t{k}\t{sh}\t{bs}\t-")); } }
             // monomorphic entries: everything but sum, f2, f3, f4
             if !["sum", "f2", "f3", "f4"].contains(k) { out.push(format!("st.rel\tmono\t{k}\t{sh}\t{bs}\t{}", bits(&[rng.range(0, 100000) as f64, rng.range(0, 100000) as f64]))); }
+            // monomorphic entries that dwarf everything else (1e18, 2^62: far above 2^53) — the frequency-based statistics must not notice
+            if i % 4 == 1 && ["fst", "king", "r0", "r1"].contains(k) { out.push(format!("st.rel\tmono\t{k}\t{sh}\t{bs}\t{}", bits(&[[1e18f64, 4611686018427387904.0][i % 2], [3e17f64, 1e18][(i / 2) % 2]]))); }
             // the same edit made in place on a spectrum whose total and statistic were already queried (every statistic: the value after
             // the edit must be the statistic of the edited spectrum)
             if i % 3 == 0 { out.push(format!("st.rel\tmonoip\t{k}\t{sh}\t{bs}\t{}", bits(&[rng.range(0, 100000) as f64, rng.range(0, 100000) as f64]))); }
